@@ -3,7 +3,7 @@ from ..core import *
 from .. import harness, gen, pyref
 from ..curve import *
 
-VO = ['Props/C03.vo']
+VO = ['Props/C03.vo', 'Tie/SqrtArk.vo']      # decode/encode call the table-driven square root: its tie to the source is part of the obligation
 FILES = ['Props/C03.v', 'Proofs/Codec.v', 'Proofs/Projective.v', 'Proofs/ByteLevel.v', 'Proofs/Final.v', 'Tie/Curve.v', 'Proofs/Instance.v']
 ENC = {'ark': ['el.enc', 'el.enc.from_elem', 'el.enc.from_ref', 'el.enc.arr_from', 'el.ser', 'el.ser_uncompressed', 'el.enc.to_field'],
        'min': ['el.enc', 'el.enc.from_elem', 'el.enc.from_ref', 'el.enc.arr_from', 'el.enc.to_field']}
